@@ -910,7 +910,14 @@ func (p *printer) expr1(expr ast.Expr, prec1, depth int) {
 				}
 			}
 			if x != nil {
-				p.expr0(x, depth+1)
+				if i < len(indices)-1 && endsWithQuestion(x) {
+					// a[(b?):c] - without parentheses '?' and ':' read as b?:c
+					p.print(token.LPAREN)
+					p.expr0(x, depth+1)
+					p.print(token.RPAREN)
+				} else {
+					p.expr0(x, depth+1)
+				}
 			}
 		}
 		p.print(x.Rbrack, token.RBRACK)
@@ -1077,6 +1084,14 @@ func (p *printer) expr1(expr ast.Expr, prec1, depth int) {
 			p.print(token.RBRACE)
 		}
 	case *ast.ErrWrapExpr:
+		if x.Default != nil && prec1 >= token.HighestPrec {
+			// x?:d as the operand of a postfix operation: without parentheses
+			// the operation would belong to the default value
+			p.print(token.LPAREN)
+			p.expr1(x, token.LowestPrec, reduceDepth(depth))
+			p.print(token.RPAREN)
+			return
+		}
 		p.expr1(x.X, token.HighestPrec, depth)
 		p.print(x.Tok)
 		if x.Default != nil {
@@ -1084,6 +1099,13 @@ func (p *printer) expr1(expr ast.Expr, prec1, depth int) {
 			p.expr1(x.Default, token.UnaryPrec, depth)
 		}
 	case *ast.LambdaExpr:
+		if prec1 > token.LowestPrec {
+			// a lambda as an operand: its body would swallow what follows
+			p.print(token.LPAREN)
+			p.expr1(x, token.LowestPrec, reduceDepth(depth))
+			p.print(token.RPAREN)
+			return
+		}
 		if x.LhsHasParen {
 			p.print(token.LPAREN)
 			p.identList(x.Lhs, false)
@@ -1102,6 +1124,12 @@ func (p *printer) expr1(expr ast.Expr, prec1, depth int) {
 		}
 
 	case *ast.LambdaExpr2:
+		if prec1 > token.LowestPrec {
+			p.print(token.LPAREN)
+			p.expr1(x, token.LowestPrec, reduceDepth(depth))
+			p.print(token.RPAREN)
+			return
+		}
 		if x.LhsHasParen {
 			p.print(token.LPAREN)
 			p.identList(x.Lhs, false)
@@ -1173,6 +1201,22 @@ func (p *printer) listForPhrase(list []*ast.ForPhrase) {
 			p.expr(x.Cond)
 		}
 	}
+}
+
+// endsWithQuestion reports whether the text of x ends in the '?' of an
+// error-wrap expression without default value.
+func endsWithQuestion(x ast.Expr) bool {
+	switch x := x.(type) {
+	case *ast.ErrWrapExpr:
+		return x.Tok == token.QUESTION && x.Default == nil
+	case *ast.BinaryExpr:
+		return endsWithQuestion(x.Y)
+	case *ast.UnaryExpr:
+		return endsWithQuestion(x.X)
+	case *ast.StarExpr:
+		return endsWithQuestion(x.X)
+	}
+	return false
 }
 
 func (p *printer) possibleSelectorExpr(expr ast.Expr, prec1, depth int) bool {
